@@ -250,6 +250,40 @@ def call_sanitized(func, args, kwargs):
 
 
 # ---------------------------------------------------------------------------------
+# fault injection: a clock that runs fast
+
+class FastClock:
+    """While active, every clock of the `time` module that measures elapsed time advances by `step` seconds per reading
+    (a loaded machine, a suspended laptop, a very long recording): results must not depend on how long a call took."""
+    NAMES = ('monotonic', 'time', 'perf_counter', 'process_time')
+
+    def __init__(self, step=1200.0):
+        self.step = step
+        self.readings = 0
+
+    def __enter__(self):
+        import time
+        self._time = time
+        self.saved = {n: getattr(time, n) for n in self.NAMES}
+        self.saved.update({n + '_ns': getattr(time, n + '_ns') for n in self.NAMES})
+        base = {n: f() for n, f in self.saved.items()}
+
+        def make(n, ns):
+            def clock():
+                self.readings += 1
+                return base[n] + (int(self.readings * self.step * 1e9) if ns else self.readings * self.step)
+            return clock
+        for n in list(self.saved):
+            setattr(time, n, make(n, n.endswith('_ns')))
+        return self
+
+    def __exit__(self, *exc):
+        for n, f in self.saved.items():
+            setattr(self._time, n, f)
+        return False
+
+
+# ---------------------------------------------------------------------------------
 # logical-step bound on the padding loop of get_padded_extrema
 
 class PadStepMonitor:
